@@ -181,8 +181,50 @@ def validation(ctx):
     ctx.floor('C10.7', 3)
 
 
+def alignment(ctx):
+    """C10.7 by symbolic evaluation of the aligner: lower bound = bs*floor(lo/bs), upper bound = bs*ceil(hi/bs) or the
+    axis length (clip), for the blockshape component of the axis number it is given."""
+    P, G = ctx.P, ctx.G
+    f = P.func('cropping.SgzCropper.correct_bounds')
+    for flags in ((False, False, False), (True, True, False)):
+        m = Model(P, G, '3d', flags, reader_cls='cropping.SgzCropper')
+        T = m.T
+        for k in range(3):
+            lo = m.interp.digit_var('lo%d' % k, k)
+            hi = m.interp.digit_var('hi%d' % k, k)
+            params = {f.params[1]: Tup([lo, hi]), f.params[2]: Opaque('name'), f.params[3]: m.N[k], f.params[4]: C(k)}
+            outs = [o for o in m.run(f.qualname, params=params) if o.kind == 'return']
+            if not outs:
+                raise AnalysisError('correct_bounds: no returning path (mode %s axis %d)' % (m.name, k))
+            bs = m.bs[k]
+            want_lo = bs * T.floordiv(lo, bs)
+            want_hi = bs * T.ceildiv(hi, bs)
+            bad = None
+            his = set()
+            for o in outs:
+                v = o.value
+                if not (isinstance(v, Tup) and len(v.elts) == 2 and all(isinstance(x, Poly) for x in v.elts)):
+                    raise AnalysisError('correct_bounds: result does not normalise (mode %s axis %d): %r' % (m.name, k, v))
+                if v.elts[0] != want_lo:
+                    bad = 'the lower bound becomes %r, rounding down to the block gives %r' % (v.elts[0], want_lo)
+                if v.elts[1] not in (want_hi, m.N[k]):
+                    bad = 'the upper bound becomes %r, rounding up to the block gives %r (or the axis length %r)' % (
+                        v.elts[1], want_hi, m.N[k])
+                his.add(repr(v.elts[1]))
+            label = 'axis %d [%s]' % (k, m.name)
+            if bad:
+                ctx.fail('C10.7', f, f.name, 'alignment on axis %d (%s): %s: the cropped box is not the requested box widened to '
+                         'block boundaries' % (k, m.name, bad), key_extra='axis%d' % k)
+            elif len(his) < 2:
+                ctx.fail('C10.7', f, f.name, 'alignment on axis %d: the upper bound is never clipped to the axis length' % k,
+                         key_extra='clip%d' % k)
+            else:
+                ctx.ok('C10.7', f, label, 'lo -> bs*floor(lo/bs), hi -> min(bs*ceil(hi/bs), axis length)')
+
+
 def symbolic(ctx, ht):
     P, G = ctx.P, ctx.G
+    alignment(ctx)
     count_rows = {}
     for r in ht.rows:
         role = TB.role_of_row(r)
